@@ -202,6 +202,8 @@ class Index:
                 except SyntaxError as e:
                     raise AnalysisError("cannot parse {}: {}".format(fn, e))
         self._folding: set = set()
+        self._fold_stack: list = []
+        self._tainted: set = set()
 
     # ---- anchors -------------------------------------------------------
     def mod(self, name: str) -> Module:
@@ -246,14 +248,24 @@ class Index:
         if m._consts is not None:
             return m._consts
         if modname in self._folding:
+            # import cycle: the module is being folded further up.  Whatever is folded between that frame and this one sees
+            # an incomplete view of it, so those results are not cached (a later direct request folds them again)
+            self._tainted |= set(self._fold_stack[self._fold_stack.index(modname) + 1:])
             return {}
         self._folding.add(modname)
+        self._fold_stack.append(modname)
         env: dict = {}
         ev = ConstEval(self, modname, env)
-        for st in m.tree.body:
-            ev.exec_stmt(st)
-        m._consts = env
-        self._folding.discard(modname)
+        try:
+            for st in m.tree.body:
+                ev.exec_stmt(st)
+        finally:
+            self._folding.discard(modname)
+            self._fold_stack.pop()
+        if modname in self._tainted:
+            self._tainted.discard(modname)
+        else:
+            m._consts = env
         return env
 
     def const(self, modname: str, name: str) -> Any:
@@ -469,9 +481,15 @@ class ConstEval:
         raise Unfoldable("unary")
 
     def _enum(self, cls: str) -> EnumClass:
-        for mn in self.index.modules:
-            env = self.index.consts(mn) if mn != self.modname else self.env
-            c = env.get(cls)
+        c = self.env.get(cls)
+        if isinstance(c, EnumClass):
+            return c
+        # modules already folded first; folding the rest from here could run into an import cycle
+        order = sorted(self.index.modules, key=lambda mn: self.index.modules[mn]._consts is None)
+        for mn in order:
+            if mn == self.modname:
+                continue
+            c = self.index.consts(mn).get(cls)
             if isinstance(c, EnumClass):
                 return c
         raise Unfoldable("enum " + cls)
